@@ -274,6 +274,10 @@ def _copy_layer_to_x_sparse(
                 src_dataset = src_grp[el]
                 dtype = src_dataset.dtype
                 chunks = src_dataset.chunks
+                if chunks is not None and chunks[0] > src_dataset.shape[0]:
+                    # anndata chunks an empty (resizable) array beyond its
+                    # extent; such a layout cannot be re-created as is
+                    chunks = None
                 dst_grp.create_dataset(
                     el,
                     shape=src_dataset.shape,
@@ -488,9 +492,10 @@ def amalgamate_csr_to_x(
             n_valid += src['data'].shape[0]
             if data_dtype is None:
                 data_dtype = src['data'].dtype
-            this_max = src['indices'][()].max()
-            if this_max > indices_max:
-                indices_max = this_max
+            if src['indices'].shape[0] > 0:
+                this_max = src['indices'][()].max()
+                if this_max > indices_max:
+                    indices_max = this_max
 
     cutoff = np.iinfo(np.int32).max
     if indices_max >= cutoff or n_valid >= cutoff:
@@ -507,17 +512,21 @@ def amalgamate_csr_to_x(
         grp.attrs.create(
             name='shape', data=np.array(final_shape))
 
+        if n_valid > 0:
+            chunks = min(n_valid, 20000)
+        else:
+            chunks = None
         dst_data = grp.create_dataset(
             'data',
             shape=(n_valid,),
-            chunks=min(n_valid, 20000),
+            chunks=chunks,
             dtype=data_dtype,
             compression=compression,
             compression_opts=compression_opts)
         dst_indices = grp.create_dataset(
             'indices',
             shape=(n_valid,),
-            chunks=min(n_valid, 20000),
+            chunks=chunks,
             dtype=index_dtype,
             compression=compression,
             compression_opts=compression_opts)
